@@ -95,8 +95,8 @@ theorem frontier_ge2 {N : List Nat} {c : Nat} {p : PImg} (h : PagerOK N c p) : 2
   have := h.booted.nextPage
   unfold frontier; omega
 
-theorem storeOK_compact {T : List Tx} {cs cs' : List CTx} {p0 pF : PImg} {covered : List Nat} {n : Nat} {m : Mem}
-    (hst : StoreOK T cs p0) (hcg : CG p0 (scan cs).proot (allProps T) covered (scan cs).ptop (frontier p0) n pF)
+theorem storeOK_compact {T : List Tx} {cs cs' : List CTx} {p0 pF : PImg} {covered : List Nat} {lv : LiveP} {n : Nat} {m : Mem}
+    (hst : StoreOK T cs p0) (hcg : CG p0 (scan cs).proot (allProps T) covered lv (frontier p0) n pF) (hlv : lv.top = (scan cs).ptop)
     (h1 : ∀ q ∈ allProps T, q ∈ (logRuns (scan cs).ckpt cs).flatMap (·.props) ∨ q ∈ covered)
     (h2 : (scan cs).proot = 0 → covered = [])
     (mruns : m.runs = logRuns (scan cs).ckpt cs) (mroot : m.proot = (scan cs).proot) (mptop : m.ptop = (scan cs).ptop)
@@ -147,7 +147,8 @@ theorem storeOK_compact {T : List Tx} {cs cs' : List CTx} {p0 pF : PImg} {covere
       · have := hsame hp
         simp only [Prod.mk.injEq] at this
         rw [hp, List.append_nil, this.1, this.2, mroot, mptop]
-        exact hcg.treeLive (by rw [← mroot, ← this.1]; exact hrne)
+        obtain ⟨t, last, hf, hok⟩ := hcg.treeLive (by rw [← mroot, ← this.1]; exact hrne)
+        exact ⟨t, hf, by rw [← hlv]; exact hok.treeOK⟩
       · exact (htree hp).2
 
 end Nervus.Crash
@@ -176,8 +177,8 @@ theorem msegs_keys {T : List Tx} {fs : FS} {m : Mem} {cs : List CTx} {c : Nat} (
   exact List.map_id' _
 
 /-- files and memory after the page phase still satisfy the handle invariant (old manifest) -/
-theorem inv_after_pages {cfg : Cfg} {T : List Tx} {fs : FS} {m : Mem} {cs : List CTx} {c : Nat} {covered : List Nat}
-    (h : InvOpen T fs m cs c) (pp : PagesPost cfg T fs m covered (scan cs).ptop)
+theorem inv_after_pages {cfg : Cfg} {T : List Tx} {fs : FS} {m : Mem} {cs : List CTx} {c : Nat} {covered : List Nat} {lv : LiveP}
+    (h : InvOpen T fs m cs c) (hlv : lv.top = (scan cs).ptop) (pp : PagesPost cfg T fs m covered lv)
     (h1 : ∀ q ∈ allProps T, q ∈ (logRuns (scan cs).ckpt cs).flatMap (·.props) ∨ q ∈ covered)
     (h2 : (scan cs).proot = 0 → covered = []) :
     InvOpen T (fs.steps (ioSteps (pagesA cfg m fs.pv).1))
@@ -185,7 +186,7 @@ theorem inv_after_pages {cfg : Cfg} {T : List Tx} {fs : FS} {m : Mem} {cs : List
   obtain ⟨hw, hd, hr⟩ := steps_pager_wal _ pp.pager.facts.2 fs
   obtain ⟨n, hcg⟩ := pp.cg
   rw [h.mroot] at hcg
-  have hst := hcg.storeOK h.store (Nat.le_refl _) rfl h1 h2
+  have hst := hcg.storeOK hlv h.store (Nat.le_refl _) rfl h1 h2
   have hold : ∀ k ∈ (scan cs).segs, segFind (fs.steps (ioSteps (pagesA cfg m fs.pv).1)).pd k = segFind fs.pd k :=
     fun k hk => hcg.segOld k (by have := h.store.segLt k hk; unfold frontier; omega)
   exact
@@ -214,8 +215,8 @@ theorem inv_after_pages {cfg : Cfg} {T : List Tx} {fs : FS} {m : Mem} {cs : List
       mwal := h.mwal }
 
 /-- the representation through the NEW manifest, once the system transaction is in the log -/
-theorem compact_new {cfg : Cfg} {T : List Tx} {fs : FS} {m : Mem} {cs : List CTx} {c : Nat} {covered : List Nat}
-    (h : InvOpen T fs m cs c) (hne : m.runs ≠ []) (pp : PagesPost cfg T fs m covered (scan cs).ptop)
+theorem compact_new {cfg : Cfg} {T : List Tx} {fs : FS} {m : Mem} {cs : List CTx} {c : Nat} {covered : List Nat} {lv : LiveP}
+    (h : InvOpen T fs m cs c) (hlv : lv.top = (scan cs).ptop) (hne : m.runs ≠ []) (pp : PagesPost cfg T fs m covered lv)
     (h1 : ∀ q ∈ allProps T, q ∈ (logRuns (scan cs).ckpt cs).flatMap (·.props) ∨ q ∈ covered)
     (h2 : (scan cs).proot = 0 → covered = []) :
     scan (compactCs cfg m fs.pv cs) =
@@ -244,7 +245,7 @@ theorem compact_new {cfg : Cfg} {T : List Tx} {fs : FS} {m : Mem} {cs : List CTx
   have htree' : cProps m ≠ [] → (pagesA cfg m fs.pv).2.2.2.1 ≠ 0 ∧
       ∃ t, treeFind (fs.steps (ioSteps (pagesA cfg m fs.pv).1)).pd (pagesA cfg m fs.pv).2.2.2.1 = some t ∧
         TreeOK (allProps T) (covered ++ cProps m) (pagesA cfg m fs.pv).2.2.2.2 t := pp.tree
-  exact storeOK_compact (m := m) h.store hcg h1 h2 h.mruns h.mroot h.mptop (pagesA cfg m fs.pv).2.2.1 (pagesA cfg m fs.pv).2.2.2.1
+  exact storeOK_compact (m := m) h.store hcg hlv h1 h2 h.mruns h.mroot h.mptop (pagesA cfg m fs.pv).2.2.1 (pagesA cfg m fs.pv).2.2.2.1
     (pagesA cfg m fs.pv).2.2.2.2 pp.seg (fun hp => by rw [← pp.same hp]) htree'
     (by rw [hsc]) (by rw [hsc]) (by rw [hsc]) (by rw [hsc]; exact hruns)
 
@@ -299,7 +300,7 @@ theorem compact_safe {cfg : Cfg} {T : List Tx} {fs : FS} {m : Mem} {cs : List CT
   have hruns : m.runs ≠ [] := by
     intro h0; rw [h0] at hne'; simp at hne'
   obtain ⟨covered, h1, h2, h3⟩ := h.store.props
-  have pp := pages_post hcap1 h hns covered h2 h3
+  obtain ⟨lv, hlv, pp⟩ := pages_post hcap1 h hns covered h2 h3
   obtain ⟨hS, _, _⟩ := compactA_steps cfg m fs.pv fs.wf hne' h.mwal pp.nofail
   rw [hS]
   -- (1) page phase
@@ -312,13 +313,13 @@ theorem compact_safe {cfg : Cfg} {T : List Tx} {fs : FS} {m : Mem} {cs : List CT
     have hst : WalStable cs (fs.steps ((ioSteps (pagesA cfg m fs.pv).1).take n)) :=
       ⟨by rw [hr]; exact h.wal.ren, by rw [hd, hw]; exact h.wal.wdur, fun k hk => by rw [hw]; exact h.wal.stable k (by rw [← hd]; exact hk)⟩
     obtain ⟨k, hk, hW⟩ := hst.crashW mode
-    exact ⟨T, by simp, cs, c, by rw [hW]; exact hst.stable k hk, h.log, hcg.pagerOK h.pager (frontier_ge2 h.pager), hcg.storeOK h.store (Nat.le_refl _) rfl h1 h2⟩
+    exact ⟨T, by simp, cs, c, by rw [hW]; exact hst.stable k hk, h.log, hcg.pagerOK h.pager (frontier_ge2 h.pager), hcg.storeOK hlv h.store (Nat.le_refl _) rfl h1 h2⟩
   apply safeAlong_append sa1
   -- (2) tail cut
-  have hinv := inv_after_pages h pp h1 h2
+  have hinv := inv_after_pages h hlv pp h1 h2
   obtain ⟨hwP, hdP, hrP⟩ := steps_pager_wal _ pp.pager.facts.2 fs
   generalize hfsP : fs.steps (ioSteps (pagesA cfg m fs.pv).1) = fsP at hinv hwP hdP hrP
-  have hnew := compact_new h hruns pp h1 h2
+  have hnew := compact_new h hlv hruns pp h1 h2
   rw [hfsP] at hnew
   have htP : TailPre cfg fsP { m with pm := (pagesA cfg m fs.pv).2.1.pm, bm := (pagesA cfg m fs.pv).2.1.bm } := by
     rcases ht with ht | ht
@@ -427,12 +428,12 @@ theorem compact_post {cfg : Cfg} {T : List Tx} {fs : FS} {m : Mem} {cs : List CT
   have hruns : m.runs ≠ [] := by
     intro h0; rw [h0] at hne'; simp at hne'
   obtain ⟨covered, h1, h2, h3⟩ := h.store.props
-  have pp := pages_post hcap1 h hns covered h2 h3
+  obtain ⟨lv, hlv, pp⟩ := pages_post hcap1 h hns covered h2 h3
   obtain ⟨hS, _, hM⟩ := compactA_steps cfg m fs.pv fs.wf hne' h.mwal pp.nofail
   rw [hS, hM]
-  have hinv := inv_after_pages h pp h1 h2
+  have hinv := inv_after_pages h hlv pp h1 h2
   obtain ⟨hwP, hdP, hrP⟩ := steps_pager_wal _ pp.pager.facts.2 fs
-  have hnew := compact_new h hruns pp h1 h2
+  have hnew := compact_new h hlv hruns pp h1 h2
   have hsegE : segEdges (fs.steps (ioSteps (pagesA cfg m fs.pv).1)).pd (pagesA cfg m fs.pv).2.2.1 = cEdges m := by
     obtain ⟨s, hs, hse⟩ := pp.seg
     simp [segEdges, hs, hse]
